@@ -167,6 +167,31 @@ def long_chain(rng, nmin=10, nmax=11, qn_mode=None):
     return random_basis_list(rng, nsite=(nmin, nmax), max_dim=2 ** nmax, min_dim=2 ** nmin, qn_mode=qn_mode, kinds=kinds)
 
 
+def signed_spin_chain(rng, nsite=(4, 8), with_vibrations=True):
+    """Spin-1/2 sites labelled by S_z (+1 / -1, either order) and optionally a vibration: the total label ZERO is a
+    populated sector with several symmetry blocks on every bond (labels of both signs)."""
+    from renormalizer.model import basis as ba
+    n = int(rng.integers(nsite[0], nsite[1] + 1))
+    basis, desc = [], []
+    for i in range(n):
+        if with_vibrations and i > 0 and rng.random() < 0.15:
+            nb = int(rng.integers(2, 4))
+            basis.append(ba.BasisSHO(f"v{i}", 1.0, nb))
+            desc.append(("SHO", repr(f"v{i}"), {"omega": 1.0, "nbas": nb, "x0": 0.0, "dvr": False}))
+        else:
+            sq = [1, -1] if rng.random() < 0.7 else [-1, 1]
+            basis.append(ba.BasisHalfSpin(f"s{i}", sigmaqn=sq))
+            desc.append(("HalfSpin", repr(f"s{i}"), sq))
+    return GenModel(basis, {"qn_mode": "one", "basis": desc, "signed": True})
+
+
+def zero_sector(gm):
+    """The all-zero total label if it is populated, else None."""
+    from rv import dense
+    q = np.zeros(gm.qn_size, dtype=int)
+    return q if int(dense.sector_mask(gm.basis, q).sum()) >= 2 else None
+
+
 def random_basis_list(rng, nsite=(1, 6), max_dim=1024, qn_mode=None, kinds=None, min_dim=1):
     """Ordered list of basis sets mixing the kinds of DESIGN 2.2.
 
